@@ -92,7 +92,8 @@ def programs(draw):
             "bigmeta": draw(st.integers(0, 3)) == 0,
             # OVNI_TMPDIR on another file system than the trace directory (as in the documented use: node-local
             # storage during the run, the shared file system at the end)
-            "xfs": draw(st.booleans())}
+            # or below the trace directory itself (the emulator then walks through it as well)
+            "xfs": draw(st.sampled_from([False, True, True, "nested"]))}
 
 
 def to_script(case):
@@ -165,16 +166,18 @@ def run(case, ctx):
     base = ctx.newdir()
     npoints = 0
     nontrivial = 0
-    xdir = ctx.otherfs_dir() if (case["tmpdir"] and case.get("xfs")) else None
+    xdir = ctx.otherfs_dir() if (case["tmpdir"] and case.get("xfs") is True) else None
 
-    def tmode():
+    def tmode(wdir):
+        if case["tmpdir"] and case.get("xfs") == "nested":
+            return os.path.join(wdir, "trace", "tmp")
         if not case["tmpdir"] or xdir is None:
             return case["tmpdir"]
         p = os.path.join(xdir, "tmp")
         shutil.rmtree(p, ignore_errors=True)
         return p
     try:
-        dry = inject.run(ctx.shared["drv"], script, os.path.join(base, "dry"), tmpdir_mode=tmode(), env=env, nthreads=nth)
+        dry = inject.run(ctx.shared["drv"], script, os.path.join(base, "dry"), tmpdir_mode=tmode(os.path.join(base, "dry")), env=env, nthreads=nth)
         if dry.rc != 0:
             if case.get("reinit") and dry.err.strip():
                 return {"discard": True, "cls": ["reinit-refused-by-library"]}
@@ -247,7 +250,7 @@ def run(case, ctx):
         for (s, k) in points:
             wd = os.path.join(base, "k")
             shutil.rmtree(wd, ignore_errors=True)
-            r = inject.run(ctx.shared["drv"], script, wd, tmpdir_mode=tmode(), env=env, nthreads=nth,
+            r = inject.run(ctx.shared["drv"], script, wd, tmpdir_mode=tmode(wd), env=env, nthreads=nth,
                            inject="%s:signal=SIGKILL:when=%d" % (s, k))
             npoints += 1
             if not r.killed:
@@ -268,7 +271,7 @@ def run(case, ctx):
                 scriptL = "\n".join(lines[:at] + ["%s fsize %d" % (lines[at].split()[0], L)] + lines[at:]) + "\n"
                 wd = os.path.join(base, "k")
                 shutil.rmtree(wd, ignore_errors=True)
-                r = inject.run(ctx.shared["drv"], scriptL, wd, tmpdir_mode=tmode(), env=env, nthreads=nth)
+                r = inject.run(ctx.shared["drv"], scriptL, wd, tmpdir_mode=tmode(wd), env=env, nthreads=nth)
                 npoints += 1
                 examine(r, "no crash, file size limit of %d bytes set right before '%s'" % (L, lines[at]), inserted_at=at)
         if not case.get("reinit"):
@@ -281,14 +284,14 @@ def run(case, ctx):
             scriptF = "\n".join(body[:last_flush] + ["P fini"] + body[last_flush:]) + "\n"
             wd = os.path.join(base, "k")
             shutil.rmtree(wd, ignore_errors=True)
-            r = inject.run(ctx.shared["drv"], scriptF, wd, tmpdir_mode=tmode(), env=env, nthreads=nth)
+            r = inject.run(ctx.shared["drv"], scriptF, wd, tmpdir_mode=tmode(wd), env=env, nthreads=nth)
             npoints += 1
             examine(r, "no crash, ovni_proc_fini called before the last flush of thread %d" % (70 + nth - 1), inserted_at=last_flush)
         nontrivial = counters[0]
         ctx.stats.extra["crash_points"] = ctx.stats.extra.get("crash_points", 0) + npoints
         ctx.stats.extra["crash_points_in_thread_free"] = ctx.stats.extra.get("crash_points_in_thread_free", 0) + nontrivial
         return {"nt": nontrivial > 0, "cls": ["mode:" + ("tmpdir" if case["tmpdir"] else "direct"), "threads:%d" % nth,
-                                               "readdir:%d" % case["readdir"]] + (["short-writes"] if case.get("short") else []) + (["tmpdir-on-another-file-system"] if xdir else []),
+                                               "readdir:%d" % case["readdir"]] + (["short-writes"] if case.get("short") else []) + (["tmpdir-on-another-file-system"] if xdir else []) + (["tmpdir-below-tracedir"] if case["tmpdir"] and case.get("xfs") == "nested" else []),
                 "sample": {"threads": [len(x) for x in case["threads"]], "tmpdir": case["tmpdir"], "crash_points": npoints}}
     finally:
         ctx.rmdir(base)
